@@ -215,7 +215,7 @@ func TestGenericAndStrings(t *testing.T) {
 	c.expect("+PONG", "ping")
 	c.expect(`"hi"`, "PING", "hi")
 	c.expect(`"x"`, "ECHO", "x")
-	c.expect("-ERR unknown command 'FooBar'", "FooBar", "1")
+	c.expect("-ERR unknown command `FooBar`, with args beginning with: `1`, ", "FooBar", "1")
 	c.expect("-ERR wrong number of arguments for 'get' command", "GET")
 	c.expect("-ERR Client sent AUTH, but no password is set", "AUTH", "x")
 	c.expect("+OK", "SET", "k", "v")
@@ -467,7 +467,7 @@ func TestMultiExec(t *testing.T) {
 	// EXECABORT on queue-time errors
 	c.expect("+OK", "MULTI")
 	c.expect("+QUEUED", "SET", "a", "1")
-	c.expect("-ERR unknown command 'NOPE'", "NOPE")
+	c.expect("-ERR unknown command `NOPE`, with args beginning with: ", "NOPE")
 	c.expect("+QUEUED", "SET", "b", "1")
 	c.expect("-EXECABORT Transaction discarded because of previous errors.", "EXEC")
 	c.expect(":0", "EXISTS", "a", "b")
